@@ -259,8 +259,11 @@ def render_particle(node, cfg, indent='    ', types=None, named=None):
             return f'{indent}<xs:any notNamespace="{NOT_ATTR[con_base(node[1])]}"{sib} processContents="{pc}"{occ_attrs(*occ(node))}/>\n'
         return f'{indent}<xs:any namespace="{CON_ATTR[con_base(node[1])]}"{sib} processContents="{pc}"{occ_attrs(*occ(node))}/>\n'
     tag = {'s': 'sequence', 'c': 'choice', 'a': 'all'}[k]
-    if named is not None and node in named:
-        return f'{indent}<xs:group ref="t:{named[node]}"{occ_attrs(*occ(node))}/>\n'
+    if named is not None and is_group(node):
+        # every group with the same compositor and particles refers to the one definition, whatever its occurrence range
+        for g, gname in named.items():
+            if g[:2] == node[:2]:
+                return f'{indent}<xs:group ref="t:{gname}"{occ_attrs(*occ(node))}/>\n'
     out = f'{indent}<xs:{tag}{occ_attrs(*occ(node))}>\n'
     for c in node[1]:
         out += render_particle(c, cfg, indent + '  ', types, named)
